@@ -83,7 +83,12 @@ def run(ck):
                  "@db vv1 ^ vv1", "@ds 2, vv1 - vv1 + 3", "@assert vv1 == vv1",
                  # the same inside an ADDR segment (nothing is emitted there, but an assertion still counts)
                  '@segment "ADDR"\n@assert vv1', '@segment "ADDR"\n@ds 2\n@assert vv1 - 7, "m"\n@segment "CODE"\n@db 1',
-                 '@segment "ADDR"\n@assert vv1 == 8\n@dw 1\n@assert vv1 < 9']:
+                 '@segment "ADDR"\n@assert vv1 == 8\n@dw 1\n@assert vv1 < 9',
+                 # one source line reached several times with other captured values (a macro body, an @each body): every instance is
+                 # a deferred item of its own
+                 "@macro fq1, 1, sz\n@assert vv1 >= sz\n@endmacro\nfq1 4\nfq1 200\nfq1 7", "@macro fq1, 1, sz\n@assert vv1 >= sz, \"m\"\n@endmacro\nfq1 300\nfq1 1",
+                 "@each sz, { 4 200 8 }\n@assert vv1 >= sz\n@endeach", "@macro fq2, 1, sz\n@db ( vv1 + sz ) & 255\n@dw vv1 * sz\n@endmacro\nfq2 1\nfq2 2\nfq2 1",
+                 "@each sz, { 1 2 3 }\n@db ( vv1 * sz ) & 255\n@ds sz, vv1 & 255\n@endeach", "@macro fq3, 0\n@assert vv1 <= @here\n@db 1\n@endmacro\nfq3\nfq3"]:
         for v in VALUES + [7, 8]:
             for ch in (False, True, 2):
                 triples.append(("z80", stmt, v, ch) + variants(stmt, v, ch))
@@ -244,11 +249,17 @@ def run(ck):
                          {"mode": "asm", "arch": t[0], "source": t[5], "harness_case": asm_case(t[0], text=t[5]), "expected": "DIAG"})
             break
     # K on a sample
-    idx = list(range(len(progs) - 3 * len(neednow)))
+    # (the token-level model of this leg has no macros and no @each: those programs are compared through the full model below)
+    idx = [i for i in range(len(progs) - 3 * len(neednow)) if "@macro" not in progs[i][1] and "@each" not in progs[i][1]]
+    exp_idx = [i for i in range(len(progs) - 3 * len(neednow)) if "@macro" in progs[i][1] or "@each" in progs[i][1]]
     rng.shuffle(idx)
     idx = idx[: (20000 if thorough else 3000)]
     sample = [progs[i] for i in idx]
     impl_s, mod_s, ic_s = asmk.run_both(harness, model, sample)
     ck.evaluations += len(sample)
     asmk.k_check(ck, sample, impl_s, mod_s, ic_s)
+    kc = [{"arch": progs[i][0], "files": {"/w/main.asm": progs[i][1]}} for i in exp_idx]
+    impl_f, mod_f, ic_f = asmk.run_full(harness, model, kc)
+    ck.evaluations += len(kc)
+    asmk.k_check_full(ck, kc, impl_f, mod_f, ic_f)
     return ck
